@@ -640,6 +640,12 @@ func c07Relative(c *Ctx, tree *SrcTree, built []*c07Built, compare func(*c07Buil
 
 var c07Ext = map[string]string{"deb": "deb", "rpm": "rpm", "apk": "apk", "ipk": "ipk", "archlinux": "pkg.tar.zst"}
 
+// c07WithChangelogDate: the date the changelog file of the scenarios states for its dated entry is an input
+func c07WithChangelogDate(allowed map[int64]string) map[int64]string {
+	allowed[1614834367] = "changelog-entry-date" // 2021-03-04T05:06:07Z
+	return allowed
+}
+
 func c07Config(tree *SrcTree, scriptPath map[string]string, withMTime, relative bool) string {
 	src := func(rel string) string {
 		if relative {
@@ -653,6 +659,12 @@ func c07Config(tree *SrcTree, scriptPath map[string]string, withMTime, relative 
 		b.WriteString("mtime: \"2023-11-14T22:13:20Z\"\n")
 	}
 	b.WriteString("rpm:\n  buildhost: buildhost.example\n")
+	// the changelog with a dated and an undated entry (deb renders the dates as text, rpm stores them)
+	if cl := filepath.Join(filepath.Dir(scriptPath["Scripts.PreInstall"]), "changelog.yaml"); scriptPath["Scripts.PreInstall"] != "" {
+		if _, err := os.Stat(cl); err == nil {
+			fmt.Fprintf(&b, "changelog: %q\n", cl)
+		}
+	}
 	b.WriteString("contents:\n")
 	fmt.Fprintf(&b, "  - src: %q\n    dst: /usr/bin/tool\n", src("bin/tool"))
 	fmt.Fprintf(&b, "  - src: %q\n    dst: /usr/bin/suid\n    file_info:\n      mode: 04755\n      owner: app\n      mtime: \"2017-07-14T02:40:00Z\"\n", src("bin/suid"))
@@ -705,6 +717,7 @@ func c07CrossProcess(c *Ctx, tree *SrcTree, scriptPath map[string]string, disk m
 	if err != nil {
 		return err
 	}
+	c07ConcurrentBuilds(c, cfgAbs, c07Config(tree, scriptPath, true, false))
 	type variant struct {
 		name string
 		cfg  string
@@ -742,7 +755,7 @@ func c07CrossProcess(c *Ctx, tree *SrcTree, scriptPath map[string]string, disk m
 			}
 			if i == 0 || first == nil {
 				first = data
-				checkStamps(c, fam, "cross-process", f, data, allowedFor(disk, c07MTime, explicit), in)
+				checkStamps(c, fam, "cross-process", f, data, c07WithChangelogDate(allowedFor(disk, c07MTime, explicit)), in)
 				if f == "deb" {
 					fam.Sample(map[string]any{"input": in, "bytes": len(data)})
 				}
@@ -781,7 +794,7 @@ func c07CrossProcess(c *Ctx, tree *SrcTree, scriptPath map[string]string, disk m
 					continue
 				}
 				first = data
-				checkStamps(c, fam, "cross-process", f, data, allowedFor(disk, sde, explicit), in)
+				checkStamps(c, fam, "cross-process", f, data, c07WithChangelogDate(allowedFor(disk, sde, explicit)), in)
 				dec, derr := DecodePkg(f, data)
 				if derr != nil {
 					c.Rep.Note("cross-process: decode %s: %v", f, derr)
